@@ -162,6 +162,18 @@ CLAIMED['C10'] = (
     'raysect geometry (start/end points), the two-step chord-length error bound and floating-point rounding of the index '
     'computation are outside the claim; atan2 and sqrt are havocked / harness-supplied in the accumulation harness.',
     'DESIGN.md §4 C10', TECH)
+CLAIMED['C03'] = (
+    'ExcitationLine, RecombinationLine, ThermalCXLine, TotalRadiatedPower and Bremsstrahlung (translated) are executed on an '
+    '8-species composition (neutral and bare charge states, hydrogen isotopes, a second bare nucleus) with every density and '
+    'temperature an arbitrary real (zero / negative included) and every rate coefficient an uninterpreted non-negative '
+    'function tagged by the accessor and key it was requested with: z3 proves the radiance handed to the line shape equals '
+    '(1/4pi) n_e n_i PEC(n_e,T_e) with the right charge state (Z+1 for recombination), the thermal-CX sum over eligible '
+    'donors (receiver and bare nuclei excluded) with PEC_d(n_e,T_e,T_d), total radiated power spread over every bin, the '
+    'bremsstrahlung bin = integral / bin width over its own limits with the local plasma state and the integrand equal to the '
+    'Hutchinson expression (constant re-assembled from CODATA values); no emission exactly when a required quantity is '
+    'non-positive; never negative; the right coefficients are requested.',
+    'line shape and integrator are recording stubs (C02 / quadrature error outside); one evaluation point per run.',
+    'DESIGN.md §4 C03', TECH)
 NOT_YET = {}
 props = [json.loads(l) for l in open(os.path.join(HERE, 'properties.jsonl'))]
 checks, na = [], []
